@@ -466,6 +466,11 @@ func policy(i int) types.DependencyOption {
 func apply(p *types.Project, o Op) (res *types.Project, err error, ignore []string, partition bool) {
 	switch o.Name {
 	case "WithProfiles":
+		if o.Flag {
+			// the receiver's own list, as a caller re-applying the active profiles does
+			res, err = p.WithProfiles(p.Profiles)
+			return res, err, []string{"Project.Profiles"}, true
+		}
 		res, err = p.WithProfiles(o.Names)
 		return res, err, []string{"Project.Profiles"}, true
 	case "WithServicesEnabled":
@@ -528,6 +533,7 @@ func drawOp(rng *rand.Rand, p *types.Project) Op {
 	switch name {
 	case "WithProfiles":
 		o.Names = [][]string{nil, {"p"}, {"q"}, {"p", "q"}, {"*"}, {"zzz"}}[rng.Intn(6)]
+		o.Flag = rng.Intn(4) == 0 && len(p.Profiles) > 0
 	case "WithServicesEnabled", "WithServicesDisabled", "ForEachService":
 		o.Names = pick()
 		o.Policy = rng.Intn(3)
